@@ -1,8 +1,8 @@
 """C04 - serializable transactions (DESIGN §5 C04)."""
 from .facts import short_id
-from .flow import FlowCx, find_aggregates
+from .flow import FlowCx, find_aggregates, callee_name
 from . import common
-from .c03 import overlap_fact, membership_fact, WRITE_SET
+from .c03 import overlap_fact, membership_fact, WRITE_SET, plumbing
 
 EXPLANATION = (
     "Decides structural necessary conditions of SSI validation on the MIR: (R1) read registration reaches the manager "
@@ -27,6 +27,16 @@ def run(ctx):
         ctx.ob("R1", short_id(e.id), e.id in callers,
                what="no call path from %s to TransactionManager::record_read: serializable transactions validate an empty read set (snapshot isolation only)" % short_id(e.id),
                where=e.loc())
+    plumbing(ctx, P, "record_read")
+    # begin_with_isolation hands its isolation argument to the new transaction
+    bw = P.fn("TransactionManager::begin_with_isolation")
+    bx = FlowCx(P, bw)
+    ok = False
+    for bi, t in bw.calls():
+        if callee_name(t).endswith("TxInfo::new"):
+            ok = "param:2" in bx.tags(t["args"][1])
+    ctx.ob("R7", "begin_with_isolation#level", ok,
+           what="begin_with_isolation does not pass its isolation level to the new transaction", where=bw.loc())
     sf = find_aggregates(commit, "TransactionError", "SerializationFailure")
     ctx.floor("R2", len(sf), 1, "SerializationFailure constructions in TransactionManager::commit")
     for n, (bi, si, rv, ln) in enumerate(sf):
